@@ -48,6 +48,14 @@ def gas_reactions(rng, fmt, with_h2=True, atoms=True):
                  {"reactants": ["H2", "e-"], "products": ["H", "H", "e-"], "idx": 2, "tmin": 10, "tmax": 1e4, "rate": "2.3d-9*(T32)**(-0.5)*exp(-1.0d4*invT)"},
                  {"reactants": ["C", "O"], "products": ["CO"], "idx": 3, "tmin": -1, "tmax": -1, "rate": "4.69d-19*(T32)**1.52*exp(50.5*invT)*n(idx_H)/Hnuclei"},
                  {"reactants": ["CO"], "products": ["C", "O"], "idx": 4, "tmin": -1, "tmax": -1, "rate": "2.0d-10*user_crate*exp(-2.5*user_Av)*uscl"}]
+        # rate expressions that read the abundances of charged species (n(idx_Xp), n(idx_Xm)): the index macros they are rewritten to
+        # must be the ones naunet_macros.h defines
+        extra = [{"reactants": ["H+", "e-"], "products": ["H"], "tmin": -1, "tmax": -1, "rate": "3.5d-12*(T32)**(-0.7)*n(idx_Hp)/Hnuclei"},
+                 {"reactants": ["H", "e-"], "products": ["H-"], "tmin": -1, "tmax": -1, "rate": "1.4d-18*Tgas**0.928*exp(-1.0*Tgas/1.62d4)*(1.0+n(idx_Hm)/Hnuclei)"},
+                 {"reactants": ["C+", "e-"], "products": ["C"], "tmin": 10, "tmax": 1e4, "rate": "4.4d-12*n(idx_Cp)/(n(idx_Cp)+n(idx_C)+1d-40)"}]
+        for e in extra:
+            if rng.random() < 0.6:
+                reacs.append(dict(e, idx=len(reacs) + 1))
         return reacs
     reacs = c["reactions"][:14]
     if not with_h2:
